@@ -39,7 +39,7 @@ CHECKS = {
         text="Theorem evals_in_box over Model/Shell.lean: for every user objective/gradient/callback, every kernel and stepper oracle, every "
              "configuration, every point in the call log, every callback state and the result lie in the box; fixed_never_move. No law of "
              "arithmetic is used, so rounding is covered. Bound to main.py/linesearch.py/scalar_function.py by bit-exact replay of recorded "
-             "runs through the model, and the points the real run hands to the user are checked with exact comparisons. The entry condition (well-formed box containing the start) is theorem getBounds_ok about the model of base.get_bounds (Model/Bounds.lean), compared with the real validation on generated valid and malformed inputs (None entries, reversed/equal/NaN bounds, wrong lengths, start outside by one ulp).",
+             "runs through the model, and the points the real run hands to the user are checked with exact comparisons. evals_in_box_complete: the same statement for the COMPLETE executable model (concreteOracles: compact matrices from the memory snapshot, cauchy, subspaceMin and the DCSRCH model composed under the driver — no oracle left, any arithmetic), the model the Lean driver executes natively against the package on its benchmark functions (C01 check). The entry condition (well-formed box containing the start) is theorem getBounds_ok about the model of base.get_bounds (Model/Bounds.lean), compared with the real validation on generated valid and malformed inputs (None entries, reversed/equal/NaN bounds, wrong lengths, start outside by one ulp).",
         note=SHELL_NOTE + " Finite-difference stencil points: under the approx_derivative contract (monitored).",
         technique=SHELL_TECH, design_ref="DESIGN.md §4 C02"),
     "C03": dict(
@@ -88,7 +88,7 @@ CHECKS.update({
              "cauchy.py is non-zero at every non-stationary point: variables resting on a bound with the gradient outward do not block the others), "
              "moving_breakpoint_pos, d0_descent_term; nonstationary_cauchy_decrease and nonstationary_descent (Props/C01Descent: at a non-stationary iterate the model value at the generalized Cauchy point is strictly negative and, after the truncated Newton step on the free variables, the search direction satisfies g.d < 0 — the chain C01 -> C08 gcp_model_neg -> C09 direction_descent, exact arithmetic; model_iteration_descent states it for the two executable models chained as the driver chains the routines); with C04 report_truthful and C05 result_coherent the PGTOL message is truthful. That the "
              "iteration reaches such a point on every generated convex problem (global convergence through SciPy's line search in floating point) is "
-             "not a theorem: it is decided on real runs (600 quick / 8000 thorough convex problems incl. starts constructed on bounds with the gradient "
+             "not a theorem: it is decided on real runs — and the COMPLETE executable model (Model/Kernels.lean: compact matrices from the memory snapshot, cauchy, subspaceMin, the DCSRCH model, composed under the driver model; no recorded answers) is executed natively by the Lean driver on the package's benchmark functions and compared with the package (iterates, iteration counts, messages), which ties the chain of models the theorems are about to the code end to end — (600 quick / 8000 thorough convex problems incl. starts constructed on bounds with the gradient "
              "inward/outward), each replayed bit for bit through the Lean driver model, projected gradient recomputed from the harness's closures.",
         note=SHELL_NOTE + " Resolution level of the objective is measured (1-ulp perturbations), see evidence assumptions.",
         technique="Lean 4 proof (KKT characterisation of the stop test and of the Cauchy direction, ordered field) + bit-exact trace replay + convex-run search with recomputed projected gradient",
